@@ -66,7 +66,9 @@ class C08(Check):
         if stratum == 'S-cols':
             libs = (rng.choice(libs),)
         spec = models.gen_net(rng, n_nodes=rng.randint(2 if stratum == 'S-cols' else 1, 5), libs=libs,
-                              hier=depth >= 1, max_edges=4)
+                              hier=depth >= 1, max_edges=4,
+                              # multi-operator nodes: the operator that receives the input is read by a second operator
+                              readouts=(0.4, 0.0) if rng.random() < 0.25 else None)
         if depth >= 1 and not spec.get('circuits'):
             depth = 0
         if depth == 2:
@@ -96,7 +98,7 @@ class C08(Check):
         N = steps if (solver != 'scipy' or rng.random() < 0.5) else steps + rng.randint(1, 9)
         vec = (rng.random() < 0.5 or stratum == 'S-cols') and stratum != 'S-fortran'
         inputs = []
-        opnames = sorted({o for (_, o) in net.inst})
+        opnames = sorted({o for (_, o), i_ in net.inst.items() if models.LIB[i_['lib']]['in']})     # (readout operators take no input)
         for i in range(rng.randint(1, 3)):
             opn = rng.choice(opnames)
             lib = [x['lib'] for (n, o), x in net.inst.items() if o == opn][0]
